@@ -66,8 +66,29 @@ func RuleI1(c *Ctx) {
 		case cs.Pk != corePk:
 			sc.Violation(key, pos, "file-system call outside the INCLUDE implementation")
 		case f.Name() == "Stat" || f.Name() == "Lstat":
+			// the path may be the parameter of a helper with one caller: judge it where it is built
+			statArg := cs.Call.Args[0]
+			for depth := 0; depth < 3 && cs.Lit == nil; depth++ {
+				id, ok := ast.Unparen(c.CFG(cs.Pk, cs.Body).Resolve(statArg)).(*ast.Ident)
+				if !ok {
+					break
+				}
+				pi := paramIndex(cs, cs.Pk.TypesInfo, cs.Pk.TypesInfo.ObjectOf(id))
+				self := declObj(cs)
+				if pi < 0 || self == nil || c.usedAsValue(self) {
+					break
+				}
+				callers := c.callSitesOf(self)
+				if len(callers) != 1 || pi >= len(callers[0].Call.Args) {
+					break
+				}
+				cs = callers[0]
+				statArg = cs.Call.Args[pi]
+			}
+			info = cs.Pk.TypesInfo
+			cf = c.CFG(cs.Pk, cs.Body)
 			// arg := filepath.Join(filepath.Dir(X), p)
-			arg := cf.Resolve(cs.Call.Args[0])
+			arg := cf.Resolve(statArg)
 			join, ok := ast.Unparen(arg).(*ast.CallExpr)
 			if !ok || !isPkgFunc(info, join, "path/filepath", "Join") || len(join.Args) != 2 {
 				sc.Violation(key, pos, "the path given to os.Stat is not filepath.Join(dir, name)")
@@ -115,7 +136,7 @@ func RuleI1(c *Ctx) {
 			if cf.MustAt(cs.Call, gen, nil, nil) {
 				sc.Holds(key, pos, fmt.Sprintf("path = Join(Dir(current file), %s) with %s validated by %s (error returns first)", types.ExprString(p), types.ExprString(p), validated))
 				statFn = cs.Decl
-				if id, ok := ast.Unparen(cs.Call.Args[0]).(*ast.Ident); ok {
+				if id, ok := ast.Unparen(statArg).(*ast.Ident); ok {
 					statPathObj = info.ObjectOf(id)
 				}
 				// and what the validator judges is the name as written: the lexeme's value
